@@ -53,6 +53,7 @@ func runC04(p *core.Prog, r *core.Result) {
 		"R4.4 on the no-cycle path results[i].Error = wait(targets[i]) and results[i].Target = targets[i].target for the same i, for all i",
 		"R4.5/R4.6 wait loops re-test under lock, every writer of the waited-for state wakes the waiters on all exits",
 		"R4.7 Run returns wait() of the target obtained for the requested label",
+		"R4.8 the only outcome that lets a requester continue without waiting - the cyclic-dependency error - is constructed only where the walk over published waiting sets has come back to the requester's own target (a diamond or a repeated label is not a cycle)",
 	}
 	r.NotDecided = []string{"absence of duplicate execution under every interleaving as an observed fact (only the lock/ownership structure that makes it so)", "outcome equality as observed at run time"}
 	a := resolveRunner(p, r, "R4.0")
@@ -183,6 +184,8 @@ func runC04(p *core.Prog, r *core.Result) {
 			}
 		}
 	}
+	// R4.8
+	checkCycleErrorOrigin(p, r, a, "R4.8")
 	r.Check(okRun, "R4.7", "runner.Run#result", p.Pos(a.Run.Pos()), "Run starts the target for its label argument and returns that target's wait()", "Run does not return wait() of the started target for the requested label")
 }
 
@@ -461,57 +464,9 @@ func runC05(p *core.Prog, r *core.Result) {
 	}
 
 	// R5.3 who constructs CyclicDependencyError
-	cde := p.Named("runner", "CyclicDependencyError")
-	if cde == nil {
-		r.Unk("R5.3", "anchor:runner.CyclicDependencyError", "-", "type not found")
+	if !checkCycleErrorOrigin(p, r, a, "R5.3") {
 		return
 	}
-	n := 0
-	for _, f := range p.ModuleFuncs() {
-		core.Instrs(f, func(in ssa.Instruction) {
-			v, ok := in.(ssa.Value)
-			if !ok {
-				return
-			}
-			isConv := false
-			switch x := in.(type) {
-			case *ssa.Convert:
-				isConv = types.Identical(x.Type(), cde)
-			case *ssa.ChangeType:
-				isConv = types.Identical(x.Type(), cde)
-			case *ssa.MakeInterface:
-				// constant conversions appear as MakeInterface of a Const of the named type
-				if c, ok := x.X.(*ssa.Const); ok && types.Identical(c.Type(), cde) {
-					isConv = true
-				}
-			}
-			if !isConv {
-				return
-			}
-			_ = v
-			n++
-			construct := fname(f) + "#construct-CyclicDependencyError"
-			if f != a.check {
-				r.Bad("R5.3", construct, p.InstrPos(in), "a cyclic-dependency error is constructed outside the root-identity test of (*engine).check: acyclic graphs can be reported as cyclic")
-				return
-			}
-			// on the true edge of dep == e.root
-			ok = p.FactsAt(in).Find(func(cond ssa.Value, val bool) bool {
-				b, okb := cond.(*ssa.BinOp)
-				if !okb || (b.Op != token.EQL && b.Op != token.NEQ) {
-					return false
-				}
-				isDep := func(v ssa.Value) bool { prm, ok := v.(*ssa.Parameter); return ok && prm == f.Params[1] }
-				isRoot := func(v ssa.Value) bool { return core.LoadOfField(v, pkgRunner, "engine", "root") }
-				if (isDep(b.X) && isRoot(b.Y)) || (isDep(b.Y) && isRoot(b.X)) {
-					return (b.Op == token.EQL) == val
-				}
-				return false
-			})
-			r.Check(ok, "R5.3", construct, p.InstrPos(in), "constructed only on the edge where the visited target is the engine's own root", "constructed without the visited target being the root: false cycle reports")
-		})
-	}
-	r.Floor("R5.3", n, 1, "constructions of CyclicDependencyError")
 	// the walk follows waiting sets only: check recurses through checkDeps on dep.waiting
 	okWalk := false
 	for _, c := range core.CallsTo(a.check, a.checkDeps) {
@@ -770,4 +725,62 @@ func runC09(p *core.Prog, r *core.Result) {
 		r.Check(c.Parent() == a.Run, "R9.7", "runner.newGate#caller:"+fname(c.Parent()), p.InstrPos(c.(ssa.Instruction)), "one gate per build, created by Run", "a second gate is created: the limit is no longer global to the build")
 	}
 	r.Floor("R9.7", ng, 1, "newGate call sites")
+}
+
+// checkCycleErrorOrigin: the cyclic-dependency error (the only outcome that lets a requester continue without
+// waiting for its dependencies) is constructed only in (*engine).check, on the edge where the visited target is
+// the engine's own root.
+func checkCycleErrorOrigin(p *core.Prog, r *core.Result, a *runnerAnchors, rule string) bool {
+	cde := p.Named("runner", "CyclicDependencyError")
+	if cde == nil {
+		r.Unk(rule, "anchor:runner.CyclicDependencyError", "-", "type not found")
+		return false
+	}
+	n := 0
+	for _, f := range p.ModuleFuncs() {
+		core.Instrs(f, func(in ssa.Instruction) {
+			v, ok := in.(ssa.Value)
+			if !ok {
+				return
+			}
+			isConv := false
+			switch x := in.(type) {
+			case *ssa.Convert:
+				isConv = types.Identical(x.Type(), cde)
+			case *ssa.ChangeType:
+				isConv = types.Identical(x.Type(), cde)
+			case *ssa.MakeInterface:
+				// constant conversions appear as MakeInterface of a Const of the named type
+				if c, ok := x.X.(*ssa.Const); ok && types.Identical(c.Type(), cde) {
+					isConv = true
+				}
+			}
+			if !isConv {
+				return
+			}
+			_ = v
+			n++
+			construct := fname(f) + "#construct-CyclicDependencyError"
+			if f != a.check {
+				r.Bad(rule, construct, p.InstrPos(in), "a cyclic-dependency error is constructed outside the root-identity test of (*engine).check: acyclic graphs can be reported as cyclic")
+				return
+			}
+			// on the true edge of dep == e.root
+			ok = p.FactsAt(in).Find(func(cond ssa.Value, val bool) bool {
+				b, okb := cond.(*ssa.BinOp)
+				if !okb || (b.Op != token.EQL && b.Op != token.NEQ) {
+					return false
+				}
+				isDep := func(v ssa.Value) bool { prm, ok := v.(*ssa.Parameter); return ok && prm == f.Params[1] }
+				isRoot := func(v ssa.Value) bool { return core.LoadOfField(v, pkgRunner, "engine", "root") }
+				if (isDep(b.X) && isRoot(b.Y)) || (isDep(b.Y) && isRoot(b.X)) {
+					return (b.Op == token.EQL) == val
+				}
+				return false
+			})
+			r.Check(ok, rule, construct, p.InstrPos(in), "constructed only on the edge where the visited target is the engine's own root", "constructed without the visited target being the root: false cycle reports")
+		})
+	}
+	r.Floor(rule, n, 1, "constructions of CyclicDependencyError")
+	return true
 }
